@@ -83,6 +83,11 @@ def I9a(S):
     return MB(S).forall(lambda m: MS(S).exists(lambda s: s.mailbox_id == m.id))
 
 
+def I9a_but(S, mid):
+    """I9a for every mailbox except `mid` (the one whose side row is about to be written)"""
+    return MB(S).forall(lambda m: Or(m.id == mid, MS(S).exists(lambda s: s.mailbox_id == m.id)))
+
+
 def I10(S):
     """key strings are non-empty where the code relies on truthiness: none needed;
     kept as the type discipline enforced at every INSERT/UPDATE (NullIntoKeyColumn)."""
@@ -102,3 +107,43 @@ def Recoverable(S):
 
 
 NAMED = {"I1": I1, "I2": I2, "I3": I3, "I4": I4, "I5": I5, "I6": I6, "I7": I7, "I8a": I8a, "I9a": I9a}
+
+
+DB_INV = ["I1", "I2", "I3", "I4", "I5", "I6", "I7", "I8a", "I9a"]
+
+
+def add_preserves(con, names=DB_INV, raises=(), tags=("C10", "C17", "C01", "C13", "C07", "C08")):
+    """requires every listed invariant and ensures each of them again (also on the
+    listed exceptional exits): the per-function part of the induction over events"""
+    def req(c):
+        for n in names:
+            yield n, NAMED[n](c.pre)
+    # do not duplicate a requires the contract already states under the same name
+    con._requires.insert(0, _dedup(req, con))
+
+    def ens(c):
+        for n in names:
+            yield "preserves." + n, NAMED[n](c.post), list(tags)
+    con._ensures.append(ens)
+    con.preserved = list(names)
+    for i, (exc, name, fn, fields, rtags, iff) in enumerate(con._raises):
+        if exc in raises:
+            def fn2(c, fn=fn):
+                yield from fn(c)
+                for n in names:
+                    yield "preserves." + n, NAMED[n](c.post)
+            con._raises[i] = (exc, name, fn2, fields, rtags, iff)
+
+
+def _dedup(req, con):
+    def wrapped(c):
+        have = set()
+        for fn in con._requires:
+            if fn is wrapped:
+                continue
+            for it in fn(c):
+                have.add(it[0])
+        for it in req(c):
+            if it[0] not in have:
+                yield it
+    return wrapped
